@@ -117,4 +117,9 @@ func scalarOrVec(t ssa.Type) bool {
 //@   loop 0 (rangeindex int, cur *instruction, abi *backend.FunctionABI, argBegin int)
 //@     invariant abi != nil && -1 <= rangeindex && argBegin >= 0 && argBegin <= 2
 //@     invariant[each-parameter-moved-at-full-width] rangeindex >= 0 && argBegin+rangeindex < len(abi.Args) && scalarOrVec(abi.Args[argBegin+rangeindex].Type) ==> isStoreInstr(cur) && movBytes(cur) == typeBytes(abi.Args[argBegin+rangeindex].Type) && (abi.Args[argBegin+rangeindex].Kind != backend.ABIArgKindReg ==> cur.prev != nil && isLoadInstr(cur.prev) && movBytes(cur.prev) == typeBytes(abi.Args[argBegin+rangeindex].Type))
+//@   loop 1 (rangeindex int, cur *instruction, abi *backend.FunctionABI, execCtrPtr regalloc.VReg)
+//@     invariant abi != nil && -1 <= rangeindex
+//@     invariant[register-result-loaded-at-full-width] rangeindex >= 0 && rangeindex < len(abi.Rets) && scalarOrVec(abi.Rets[rangeindex].Type) && abi.Rets[rangeindex].Kind == backend.ABIArgKindReg && abi.Rets[rangeindex].Reg.RealReg() != execCtrPtr.RealReg() ==> isLoadInstr(cur) && movBytes(cur) == typeBytes(abi.Rets[rangeindex].Type)
+//@     invariant[stack-result-stored-at-full-width] rangeindex >= 0 && rangeindex < len(abi.Rets) && scalarOrVec(abi.Rets[rangeindex].Type) && abi.Rets[rangeindex].Kind != backend.ABIArgKindReg ==> isStoreInstr(cur) && movBytes(cur) == typeBytes(abi.Rets[rangeindex].Type)
+//@     invariant[stack-result-loaded-at-full-width] rangeindex >= 0 && rangeindex < len(abi.Rets) && scalarOrVec(abi.Rets[rangeindex].Type) && abi.Rets[rangeindex].Kind != backend.ABIArgKindReg ==> cur.prev != nil && isLoadInstr(cur.prev) && movBytes(cur.prev) == typeBytes(abi.Rets[rangeindex].Type)
 //@   nosafety
